@@ -439,21 +439,21 @@ pub fn check(ctx: &Ctx) -> Check {
         Box::new(RandomPart {
             name: "lib-random",
             rule: "random spectra with 2..5 axes, lengths 1..6 (60% pairwise unequal), integer/real/sparse values, random axis list in random order; same oracles; non-trivial as above; distinct by (spectrum, axis list)",
-            cases: ctx.tier.pick(10_000, 150_000),
+            cases: ctx.tier.pick(10_000, 400_000),
             strategy: Box::new(|| lib_strategy().boxed()),
             eval: Box::new(eval_lib),
         }),
         Box::new(RandomPart {
             name: "cli-view",
             rule: "sfs view -m/-M/--marginalize-remove on text and npy files: printed cells vs naive sum at the printed precision, -M K byte-identical to -m complement(K), duplicate/out-of-range/all axes fail cleanly; non-trivial as above",
-            cases: ctx.tier.pick(800, 8000),
+            cases: ctx.tier.pick(800, 20_000),
             strategy: Box::new(|| cli_strategy().boxed()),
             eval: Box::new(eval_cli),
         }),
         Box::new(RandomPart {
             name: "create-marginalize",
             rule: "call sets without missing data, 2..4 populations of (mostly) unequal size: `create` for all populations piped into `view -m <populations>` must equal, as parsed integers, `create` for the remaining populations alone; non-trivial = >=3 populations with unequal sizes",
-            cases: ctx.tier.pick(600, 6000),
+            cases: ctx.tier.pick(600, 15_000),
             strategy: Box::new(|| create_strategy().boxed()),
             eval: Box::new(eval_create),
         }),
